@@ -10,8 +10,8 @@ Seven sub-checks, each exhaustive over its own small space (engine E2):
                    orthogonal/skewed axes: constructs and |sum w / volume - 1| <= sum_i 1/M_i
  4 from_molecule   molecules (incl. strongly asymmetric, single atom, linear) x spacing x extension x
                    rotate: every nucleus inside with margin >= extension - spacing on all six sides
- 5 closest_point   orthogonal axes: a lattice of query points (nodes, cell centres +- eps, up to half a
-                   step outside the box) vs brute-force argmin; "origin" mode vs floor
+ 5 closest_point   orthogonal axes (positive and negative diagonal): a lattice of query points (nodes, cell
+                   centres +- eps, up to 2.6 steps outside the box) vs brute-force argmin; "origin" mode vs floor
  6 cube files      shapes x skewed axes x data with extreme exponents x {bohr, angstrom} convention
  7 interpolation   cubic: monomials x^a y^b z^c, a,b,c <= 3 (a basis of the polynomials the clause
                    names; interpolation is linear in the values) x derivative orders <= 3 x interior
@@ -246,15 +246,17 @@ def sub_closest(ctx):
     from grid.cubic import UniformGrid
 
     for axes, shape in ((np.diag([0.5, 0.7, 0.3]), (3, 4, 5)), (np.diag([0.4, 0.4, 0.4]), (2, 2, 3)),
-                        (np.diag([0.5, 0.25]), (4, 3))):
+                        (np.diag([0.5, 0.25]), (4, 3)), (np.diag([-0.5, 0.7, -0.3]), (3, 2, 4)),
+                        (np.diag([0.5, -0.25]), (3, 4))):
         dim = len(shape)
         origin = np.array([-0.6, 0.2, 1.0])[:dim]
         g = UniformGrid(origin, axes, np.array(shape))
         steps = np.diag(axes)
-        case = {"sub": "closest", "shape": list(shape)}
+        case = {"sub": "closest", "shape": list(shape), "axes": np.diag(axes).tolist()}
         eps = 1e-6
         offs = (0.0, 0.5 - eps, 0.5 + eps, -0.3, 0.3)
-        fr = [sorted({i + o for i in range(s) for o in offs if -0.5 + eps <= i + o <= s - 0.5 - eps}) for s in shape]
+        # fractional coordinates: nodes, cell centres +- eps, and points up to 2.6 steps outside the box
+        fr = [sorted({i + o for i in range(s) for o in offs} | {-2.6, -0.7, s - 0.3, s + 1.6}) for s in shape]
         for f in itertools.product(*fr):
             ctx.count(2, section="closest")
             q = origin + np.array(f) * steps
@@ -265,7 +267,7 @@ def sub_closest(ctx):
                 ctx.violation(f"closest:raised:{type(exc).__name__}", f"closest_point({q}) raised {exc}", case)
                 break
             ctx.nontrivial(("closest", shape, f), section="closest")
-            if got != ref:
+            if not isinstance(got, int) or got != ref:
                 dref = np.linalg.norm(g.points[ref] - q)
                 dgot = np.linalg.norm(g.points[got] - q) if 0 <= got < g.size else np.inf
                 if dgot > dref + 1e-12:
